@@ -310,7 +310,7 @@ fn check(prop: &str, tier: &str) -> i32 {
         },
         "assumptions": assumptions(property),
     });
-    let evdir = root.join("evidence");
+    let evdir = std::env::var("MTSIM_EVIDENCE_DIR").map(PathBuf::from).unwrap_or(root.join("evidence"));
     let _ = std::fs::create_dir_all(&evdir);
     std::fs::write(evdir.join(format!("{property}.json")), serde_json::to_string_pretty(&ev).unwrap()).unwrap_or_else(|e| die(&format!("evidence: {e}")));
     println!(
@@ -376,7 +376,7 @@ fn determinism(engines: &[&str], pairs: u64, base: u64) -> Result<Value, String>
         // (a) one process, forward order; (b) 16 processes, each a slice, reverse order
         let slices = 16u64;
         let per = pairs.div_ceil(slices);
-        let a = std::thread::scope(|s| -> Result<(BTreeMap<u64, u64>, BTreeMap<u64, u64>), String> {
+        let a = std::thread::scope(|s| -> Result<(BTreeMap<u64, u64>, BTreeMap<u64, u64>, BTreeMap<u64, u64>), String> {
             let ask = &ask;
             let ha = s.spawn(move || ask(0, per * slices, g, false));
             let mut handles = vec![];
@@ -388,9 +388,19 @@ fn determinism(engines: &[&str], pairs: u64, base: u64) -> Result<Value, String>
             for h in handles.drain(..) {
                 b.extend(h.join().map_err(|_| "join".to_string())??);
             }
-            Ok((a, b))
+            // (c) 16 processes, each warmed up under a DIFFERENT global seed
+            let mut hc = vec![];
+            for k in 0..slices {
+                hc.push(s.spawn(move || ask(k * per, per, derive(base, "global", k + 1), false)));
+            }
+            let mut c = BTreeMap::new();
+            for h in hc {
+                c.extend(h.join().map_err(|_| "join".to_string())??);
+            }
+            Ok((a, b, c))
         })?;
-        let (fa, fb) = a;
+        let (fa, fb, fc) = a;
+        let global_sensitive = fa.iter().filter(|(i, f)| fc.get(i) != Some(f)).count();
         let mut mismatches = vec![];
         for (i, f) in &fa {
             if fb.get(i) != Some(f) {
@@ -400,7 +410,8 @@ fn determinism(engines: &[&str], pairs: u64, base: u64) -> Result<Value, String>
         if !mismatches.is_empty() || fa.len() != fb.len() {
             return Err(format!("determinism: engine {eng}: {} of {} runs differ between a single forward process and 16 reverse-order processes (first: run {:?})", mismatches.len(), fa.len(), mismatches.first()));
         }
-        res.insert(eng.to_string(), json!({"pairs": fa.len(), "layouts": "1 process forward order vs 16 processes reverse order, all fresh", "mismatches": 0}));
+        res.insert(eng.to_string(), json!({"pairs": fa.len(), "layouts": "1 process forward order vs 16 processes reverse order, all fresh, same global seed", "mismatches": 0,
+            "runs_whose_fingerprint_changes_with_the_process_global_seed": global_sensitive}));
     }
     Ok(Value::Object(res))
 }
